@@ -39,10 +39,14 @@ class Check(BaseCheck):
             for i in range(16):
                 specs.append({'campaign': 'pairs', 'draws': 10, 'seed': seed, 'i': i})
                 specs.append({'campaign': 'amp', 'n': 5000, 'seed': seed, 'i': i})
+            for z in ('EST5EDT,M3.2.0,M11.1.0', 'CET-1CEST,M3.5.0,M10.5.0/3'):
+                specs.append({'campaign': 'pairs', 'draws': 6, 'seed': seed, 'i': 'tz', 'tz': z})      # dates act through their serial in any process time zone
         else:
             for i in range(32):
                 specs.append({'campaign': 'pairs', 'draws': 160, 'seed': seed, 'i': i})
                 specs.append({'campaign': 'amp', 'n': 40000, 'seed': seed, 'i': i})
+            for z in ('EST5EDT,M3.2.0,M11.1.0', 'CET-1CEST,M3.5.0,M10.5.0/3', 'AEST-10AEDT,M10.1.0,M4.1.0/3', 'IST-5:30'):
+                specs.append({'campaign': 'pairs', 'draws': 60, 'seed': seed, 'i': 'tz', 'tz': z})
         return specs
 
     # ------------------------------------------------------------------
